@@ -21,6 +21,9 @@ import FianoModel.Cbfs.AttrLemmas
 import FianoModel.Cbfs.UpdateHead
 import FianoModel.Cbfs.Tie
 import FianoModel.Cbfs.CodeTie   -- T1 code-as-code tie (wp-t1x): audited as a tie module of this check
+import FianoModel.Cbfs.KeepWf    -- follow-up wp-c19c: NewEmptyRecord as repaired (C19.7)
+import FianoModel.Cbfs.RemoveUpdate  -- follow-up wp-c19c: Image.Remove (C19.8)
+import FianoModel.Cbfs.Utf8Spec      -- follow-up wp-c19c: the UTF-8 scanner against RFC 3629 (C19.1d)
 
 namespace Fiano.Cbfs
 open Spec
@@ -271,6 +274,282 @@ theorem c19_walk_total (img : Bytes) : newImage img ≠ .error .fuel := by
       · cases h
 
 
+/-! ## C19.1d the UTF-8 scanner of the listing against a specification of UTF-8 (follow-up wp-c19c)
+
+  `%-32s` pads the name column by RUNES (`runeCount` = utf8.RuneCountInString) and encoding/json replaces
+  what is not valid UTF-8 by U+FFFD (`coerceUTF8`). Specification (Cbfs/Utf8Spec.lean, written from RFC 3629):
+  `Scalar` = code points ≤ U+10FFFF without the surrogates, `encodeRune` = the 1–4 byte encoding. -/
+
+/-- **utf8_wellformed.** On the UTF-8 encoding of any string of Unicode scalar values the scanner counts
+    exactly one rune per scalar value and the JSON coercion is the identity. -/
+theorem c19_utf8_wellformed (cps : List Nat) (h : ∀ cp ∈ cps, Scalar cp) :
+    runeCount (encodeAll cps) = cps.length ∧ coerceUTF8 (encodeAll cps) = encodeAll cps :=
+  utf8_wellformed cps h
+
+/-- **utf8_scanner_sound.** Wherever the scanner takes MORE than one byte as a rune, these bytes are the
+    encoding of a scalar value ≥ U+0080 (shortest form, no surrogate, ≤ U+10FFFF): nothing ill-formed —
+    overlong forms, surrogates, truncated sequences, stray continuation bytes, 0xF5..0xFF — is ever
+    accepted as a multi-byte rune; it is taken one byte at a time. -/
+theorem c19_utf8_scanner_sound (c : UInt8) (t : Bytes) (hk : runeLen (c :: t) ≠ 1) :
+    ∃ cp, Scalar cp ∧ 0x80 ≤ cp ∧ (c :: t).take (runeLen (c :: t)) = encodeRune cp :=
+  runeLen_sound c t hk
+
+/-- **utf8_positions.** One step of the scan, both cases: at the encoding of a scalar value — one rune,
+    kept by JSON, the scan continues behind it; at a byte ≥ 0x80 that the scanner takes alone (ill formed) —
+    one rune (width 1), replaced by the encoding of U+FFFD in JSON, the scan continues at the next byte. -/
+theorem c19_utf8_positions (fuel : Nat) (t : Bytes) :
+    (∀ cp, Scalar cp → runeCountF (fuel + 1) (encodeRune cp ++ t) = 1 + runeCountF fuel t ∧
+      coerceF (fuel + 1) (encodeRune cp ++ t) = encodeRune cp ++ coerceF fuel t) ∧
+    (∀ c : UInt8, runeLen (c :: t) = 1 → 0x80 ≤ c.toNat →
+      runeCountF (fuel + 1) (c :: t) = 1 + runeCountF fuel t ∧
+      coerceF (fuel + 1) (c :: t) = encodeRune 0xFFFD ++ coerceF fuel t) := by
+  refine ⟨fun cp h => ?_, fun c h1 h2 => scan_illformed fuel c t h1 h2⟩
+  obtain ⟨_, _, _, h1, h2⟩ := scan_wellformed fuel cp h t
+  exact ⟨h1, h2⟩
+
+/-- on an ASCII name the rune count is the byte count and the JSON coercion is the identity -/
+theorem c19_runes_ascii (b : Bytes) (h : ∀ c ∈ b, c.toNat < 0x80) : runeCount b = b.length ∧ coerceUTF8 b = b :=
+  runes_ascii b h
+
+
+/-! ## C19.7 the reader as repaired by fixes/C19-update-empty-identity.diff (follow-up wp-c19c)
+
+  `NewEmptyRecord` keeps the file as it was read, like every other record constructor (`newImageK`,
+  Cbfs/Keep.lean); `newImage` above is the reader before that repair, which represents an empty-space
+  record by 16 zero attribute bytes and `Size` × 0xFF. The harness observes which of the two the tree under
+  test contains and ties that one (T2); T1: `tie_overwrites`. With the repair the last clause of the
+  property holds at full strength: `c19_update_unmodified_id` has no hypothesis about empty space. -/
+
+/-- the two readers accept the same images and return the same listing structure; they differ only in
+    the attribute / data bytes held for empty-space records (`reprImage` = represent those) -/
+theorem c19_readers_agree (img : Bytes) : newImage img = (newImageK img).map reprImage :=
+  newImage_eq_newImageK img
+
+/-- **update_unmodified_id** (full strength). For EVERY image the repaired reader accepts (well formed or
+    not; empty space clean, stale or with an attribute block): `Update` on the image as read returns no
+    error and leaves `Image.Data` byte-identical. -/
+theorem c19_update_unmodified_id (img : Bytes) (i : Image) (h : newImageK img = .ok i) :
+    update i = (img, none) :=
+  updateK_id img i h
+
+/-- **update_relist.** Re-reading the bytes `Update` left behind gives the very same image value — so the
+    listing, the text and the JSON structure of an unmodified archive are unchanged after `Update`
+    (every accepted image). -/
+theorem c19_update_relist (img : Bytes) (i : Image) (h : newImageK img = .ok i) :
+    newImageK (update i).1 = .ok i ∧
+    (newImageK (update i).1).map listing = .ok (listing i) ∧
+    (newImageK (update i).1).map textListing = .ok (textListing i) ∧
+    (newImageK (update i).1).map jsonListing = .ok (jsonListing i) := by
+  rw [updateK_id img i h]
+  simp only [h, Except.map, and_self]
+
+/-- the same for the reader before the repair, on the fragment it is the identity on (`EmptyClean`); on
+    an image with stale empty space the statement is FALSE for that code when the stale bytes are what makes
+    the image readable (an empty-space record that covers the flash map: the harness excludes such layouts
+    from its re-list oracle) -/
+theorem c19_update_relist_clean (img : Bytes) (i : Image) (h : newImage img = .ok i) (hc : EmptyClean img i) :
+    newImage (update i).1 = .ok i := by
+  rw [update_id_of_clean img i h hc]; exact h
+
+/-- **list_exact** for the repaired reader -/
+theorem c19_keep_list_exact (a : Archive) (w : a.WF) :
+    (newImageK (ser a)).map listing = .ok (entries 0 a.recs) := by
+  obtain ⟨i, hi, hfiles, _⟩ := newImageK_ser a w
+  rw [hi]
+  simp only [Except.map, listing]
+  rw [entries_of_rawFiles a.recs i.segs 0 w.recs hfiles]
+
+theorem c19_keep_area_exact (a : Archive) (w : a.WF) :
+    (newImageK (ser a)).map (fun i => (i.areaOff, i.areaSize)) =
+      .ok (a.pre.length, (serRecs a.fill a.recs).length) := by
+  obtain ⟨i, hi, _, h1, h2, _⟩ := newImageK_ser a w
+  rw [hi]; simp [Except.map, h1, h2]
+
+/-- **files_exact** for the repaired reader, stronger than before: what it holds for EVERY record —
+    empty space included — is the stored header fields, name, attribute bytes and data (`rawFiles`) -/
+theorem c19_keep_files_exact (a : Archive) (w : a.WF) :
+    (newImageK (ser a)).map (fun i => i.segs.map (·.file)) = .ok (rawFiles 0 a.recs) := by
+  obtain ⟨i, hi, hfiles, _⟩ := newImageK_ser a w
+  rw [hi]; simp [Except.map, hfiles]
+
+/-- **update_wf_id** (full strength): read a well-formed archive, `Update`, byte-identical — whatever its
+    empty-space records hold -/
+theorem c19_update_wf_id (a : Archive) (w : a.WF) :
+    ∃ i, newImageK (ser a) = .ok i ∧ update i = (ser a, none) := by
+  obtain ⟨i, hi, _⟩ := newImageK_ser a w
+  exact ⟨i, hi, updateK_id _ i hi⟩
+
+/-- **records_inside_disjoint** for the repaired reader (every accepted image) -/
+theorem c19_keep_records_inside_disjoint (img : Bytes) (i : Image) (h : newImageK img = .ok i) :
+    (∀ s ∈ i.segs, 24 ≤ s.file.subOff ∧
+        s.file.recordStart + s.file.subOff + s.file.size ≤ i.areaSize ∧
+        i.areaOff + s.file.recordStart + s.file.subOff + s.file.size ≤ img.length) ∧
+    i.segs.Pairwise (fun x y => x.file.recordStart + x.file.subOff + x.file.size ≤ y.file.recordStart) := by
+  obtain ⟨_, fm, s, ar, _, _, ho, hs, hc⟩ := newImageK_inv img i h
+  refine ⟨?_, chainK_pairwise _ _ _ hc⟩
+  intro x hx
+  obtain ⟨_, sa⟩ := chainK_lo _ _ _ hc x hx
+  obtain ⟨l1, l2⟩ := areaBytes_len img ar
+  have h1 := sa.hdr
+  have h2 := sa.attrLe
+  have h3 := sa.inside
+  rw [ho, hs]
+  omega
+
+/-- **data_exact** for the repaired reader: for EVERY listed record (no exception for empty space) the
+    data held is the image bytes at `area offset + record offset + data offset`, the attribute bytes are
+    the stored attribute block, and the header fields are the stored ones (every accepted image) -/
+theorem c19_keep_data_exact (img : Bytes) (i : Image) (h : newImageK img = .ok i) :
+    ∀ s ∈ i.segs,
+      s.file.fdata = slice img (i.areaOff + (s.file.recordStart + s.file.subOff)) s.file.size ∧
+      s.file.fdata.length = s.file.size ∧
+      (s.file.attrOff ≠ 0 → s.file.attr =
+        slice img (i.areaOff + (s.file.recordStart + s.file.attrOff)) (s.file.subOff - s.file.attrOff)) ∧
+      slice img (i.areaOff + s.file.recordStart) 8 = magic ∧
+      s.file.size = fromBE (slice img (i.areaOff + (s.file.recordStart + 8)) 4) ∧
+      s.file.type = fromBE (slice img (i.areaOff + (s.file.recordStart + 12)) 4) := by
+  obtain ⟨_, fm, st, ar, _, _, ho, hs, hc⟩ := newImageK_inv img i h
+  intro s hs'
+  obtain ⟨_, sa⟩ := chainK_lo _ _ _ hc s hs'
+  have hin := sa.inside
+  have hh := sa.hdr
+  have hle := sa.attrLe
+  obtain ⟨l1, l2⟩ := areaBytes_len img ar
+  rw [ho]
+  refine ⟨?_, ?_, ?_, ?_, ?_, ?_⟩
+  · rw [sa.data, areaBytes_slice _ _ _ _ (by omega)]
+  · rw [sa.data, slice_length _ _ _ (by omega)]
+  · intro ha
+    have hat := sa.attr
+    rw [if_neg ha] at hat hle
+    rw [hat, areaBytes_slice _ _ _ _ (by omega)]
+  · rw [← areaBytes_slice _ _ _ _ (by omega)]; exact sa.magicAt
+  · rw [← areaBytes_slice _ _ _ _ (by omega)]; exact sa.size
+  · rw [← areaBytes_slice _ _ _ _ (by omega)]; exact sa.type
+
+/-- **decompress_original** for the repaired reader -/
+theorem c19_keep_decompress_original (lzma lz4 : Codec) (a : Archive) (w : a.WF) (i : Image)
+    (hi : newImageK (ser a) = .ok i) (k : Nat) (r : Rec) (hr : a.recs[k]? = some r)
+    (hne : isEmptyType r.type = false) :
+    ∃ s, i.segs[k]? = some s ∧
+      (compOf r.attrs = compNone → decompress lzma lz4 s.file = some r.data) ∧
+      (∀ x, LawfulCodec lzma → compOf r.attrs = compLZMA → r.data = lzma.enc x →
+        decompress lzma lz4 s.file = some x) ∧
+      (∀ x, LawfulCodec lz4 → compOf r.attrs = compLZ4 → r.data = lz4.enc x →
+        decompress lzma lz4 s.file = some x) := by
+  obtain ⟨i', hi', hfiles, _⟩ := newImageK_ser a w
+  rw [hi] at hi'
+  injection hi' with hi'
+  subst hi'
+  obtain ⟨o, ho⟩ := rawFiles_get a.recs 0 k r hr
+  rw [← hfiles, List.getElem?_map] at ho
+  cases hs : i.segs[k]? with
+  | none => rw [hs] at ho; simp at ho
+  | some s =>
+    rw [hs] at ho
+    simp only [Option.map_some, Option.some.injEq] at ho
+    refine ⟨s, rfl, ?_⟩
+    rw [ho, rawFileAt_eq_fileAt r o hne]
+    exact decompress_fileAt lzma lz4 r (w.recs r (List.mem_of_getElem? hr)) o hne
+
+theorem c19_keep_write_back_id (img : Bytes) (i : Image) (h : newImageK img = .ok i) : writeFile i = img :=
+  (newImageK_inv img i h).1
+
+theorem c19_keep_write_prefix (img : Bytes) (i : Image) (h : newImageK img = .ok i) :
+    ∀ s ∈ i.segs, writeSeg s = s.file.fdata.take (writeSeg s).length := by
+  obtain ⟨_, fm, st, ar, _, _, _, _, hch⟩ := newImageK_inv img i h
+  intro s hs
+  exact writeSeg_prefix s (chainK_lo _ _ _ hch s hs).2.legacy
+
+/-- **text_exact** / **json_exact** for the repaired reader: the same text and the same JSON structure -/
+theorem c19_keep_text_exact (a : Archive) (w : a.WF) :
+    (newImageK (ser a)).map textListing = .ok (textHeader ++ Spec.text 0 a.recs) := by
+  obtain ⟨i, hi, hfiles, _⟩ := newImageK_ser a w
+  rw [hi]
+  simp only [Except.map, textListing]
+  rw [hfiles, textLines_rawFiles a.recs 0 w.recs, textLines_files a.recs 0 w.recs]
+
+theorem c19_keep_json_exact (a : Archive) (w : a.WF) :
+    (newImageK (ser a)).map jsonListing = .ok { offset := a.pre.length, segments := Spec.json 0 a.recs } := by
+  obtain ⟨i, hi, hfiles, hao, _⟩ := newImageK_ser a w
+  rw [hi]
+  simp only [Except.map, jsonListing, hao]
+  have : i.segs.map (fun s => jrecOf s.file) = (i.segs.map (·.file)).map jrecOf := by
+    rw [List.map_map]; rfl
+  rw [this, hfiles, json_rawFiles a.recs 0 w.recs, json_files a.recs 0 w.recs]
+
+/-- the repaired reader terminates on every input -/
+theorem c19_keep_walk_total (img : Bytes) : newImageK img ≠ .error .fuel := by
+  unfold newImageK
+  intro h
+  split at h
+  · cases h
+  · split at h
+    · cases h
+    · simp only at h
+      split at h
+      · rename_i e hw
+        injection h with h
+        subst h
+        exact walkK_fuel_ok _ _ 0 (by omega) hw
+      · cases h
+
+
+/-! ## C19.8 `Image.Remove` (follow-up wp-c19c)
+
+  `Remove` is the one modification pkg/cbfs offers; the property speaks about the unmodified archive only,
+  so these theorems are about the model `removeSegs keep fix` (Cbfs/Keep.lean; `fix` = as repaired by
+  fixes/C19-remove-merge-start.diff, `keep` = NewEmptyRecord as repaired), tied to the code by the M check
+  `remove` (record list after `Remove`, bytes after the `Update` that follows) for the variant the tree
+  contains. What the code before the repair gets wrong is recorded by `decide`d witnesses in
+  Cbfs/RemoveLemmas.lean (`remove_head_witness_merge_before`, `_last`, `_wrap`). -/
+
+/-- **remove_others_unchanged** (both variants). `Remove(n)` replaces a range of at most three
+    consecutive records — the LAST record named `n` (never the first record) and the empty-space record
+    directly in front of / behind it, if any — by ONE empty-space record; every other record is kept as it
+    is and in order, and so is its listing entry. -/
+theorem c19_remove_others_unchanged (keep fix : Bool) (segs segs' : List Seg) (n : Bytes)
+    (h : removeSegs keep fix segs n = .ok segs') :
+    ∃ found start end_ del, findLast n segs 0 none = some found ∧ 1 ≤ found ∧ found < segs.length ∧
+      start ≤ found ∧ found < end_ ∧ found ≤ start + 1 ∧ end_ ≤ found + 2 ∧
+      (∀ k s, start ≤ k → k < end_ → k ≠ found → segs[k]? = some s → deleted s = true) ∧
+      segs'.take start = segs.take start ∧ segs'[start]? = some del ∧ segs'.drop (start + 1) = segs.drop end_ ∧
+      segs'.map entryOf = (segs.take start).map entryOf ++ entryOf del :: (segs.drop end_).map entryOf ∧
+      isEmptyType del.file.type = true ∧ del.file.name = [] ∧ del.file.attrOff = 0 ∧
+      del.file.fdata = List.replicate del.file.size 0xFF :=
+  removeSegs_others keep fix segs segs' n h
+
+/-- **remove_extent** (as repaired). The record `Remove` creates begins where the merged range begins and
+    ends exactly where the next record begins — behind the last record: where the last merged record ends —
+    (offsets below 4 GiB), with at least the 0x28 bytes of its header and name field. FALSE before the
+    repair: `remove_head_witness_merge_before`. -/
+theorem c19_remove_extent (keep : Bool) (segs segs' : List Seg) (n : Bytes)
+    (h : removeSegs keep true segs n = .ok segs') :
+    ∃ (start end_ : Nat) (del sb : Seg) (top : Nat), segs'[start]? = some del ∧ segs[start]? = some sb ∧
+      del.file.recordStart = sb.file.recordStart ∧ del.file.subOff = 0x28 ∧ sb.file.recordStart + 0x28 ≤ top ∧
+      ((∃ st, segs[end_]? = some st ∧ top = st.file.recordStart) ∨
+       (segs[end_]? = none ∧ ∃ sl, segs[end_ - 1]? = some sl ∧
+          top = (sl.file.recordStart + sl.file.subOff + sl.file.size) % 2 ^ 32)) ∧
+      (top < 2 ^ 32 → del.file.recordStart + del.file.subOff + del.file.size = top) :=
+  removeSegs_fix_extent keep segs segs' n h
+
+/-- **remove_update_outside** (both repairs). Read any image (< 4 GiB) the reader accepts, `Remove` a
+    file, `Update`: no error, same length, and every byte outside `[area + base, area + top)` — `base` the
+    start of the first merged record, `top` the start of the next record / the end of the last merged
+    record — is left as it was: removing a file changes only that record (and the empty space it is
+    merged with) into empty space. -/
+theorem c19_remove_update_outside (img : Bytes) (i : Image) (h : newImageK img = .ok i)
+    (hlen : img.length < 2 ^ 32) (n : Bytes) (segs' : List Seg) (hr : removeSegs true true i.segs n = .ok segs') :
+    ∃ (start end_ : Nat) (sb : Seg) (top : Nat), i.segs[start]? = some sb ∧ start < end_ ∧
+      ((∃ st, i.segs[end_]? = some st ∧ top = st.file.recordStart) ∨
+       (i.segs[end_]? = none ∧ ∃ sl, i.segs[end_ - 1]? = some sl ∧
+          top = sl.file.recordStart + sl.file.subOff + sl.file.size)) ∧
+      sb.file.recordStart + 40 ≤ top ∧ top ≤ i.areaSize ∧ i.areaOff + top ≤ img.length ∧
+      (update { i with segs := segs' }).2 = none ∧
+      AgreeOut (i.areaOff + sb.file.recordStart) (i.areaOff + top) (update { i with segs := segs' }).1 img :=
+  remove_update_outside img i h hlen n segs' hr
+
+
 /-! ## non-vacuity: the hypotheses are met by concrete, non-trivial values -/
 
 /-- a concrete lawful codec (one marker byte in front of the stored content) -/
@@ -348,6 +627,98 @@ example (i : Image) (hi : newImage (ser sampleArchive) = .ok i) : update i = (se
 /-- … and so does `c19_update_unmodified_id_clean`: `EmptyClean` is met -/
 example (i : Image) (hi : newImage (ser sampleArchive) = .ok i) : EmptyClean (ser sampleArchive) i :=
   emptyClean_ser sampleArchive sample_wf (by decide) i hi
+
+
+/-! non-vacuity of C19.7 (follow-up wp-c19c) -/
+
+/-- the sample archive with STALE content in its empty-space record (not 0xFF) -/
+def sampleStale : Archive :=
+  { sampleArchive with
+    recs := [
+      { name := [0x61, 0x62], namePad := 14, type := 0x50
+        attrs := [{ tag := tagCompressed, body := beN 4 compLZMA ++ beN 4 4 }]
+        data := storedCodec.enc [2, 3, 4, 5], gap := 3 },
+      { name := [], namePad := 16, type := typeDeleted2, attrs := [], data := [1, 2, 3, 4, 5, 6, 7, 8], gap := 0 },
+      { name := [0x75], namePad := 15, type := 0x777, attrs := [], data := [0x44, 0x41, 0x54, 0x41], gap := 4 }] }
+
+set_option maxRecDepth 1000000 in
+theorem sampleStale_read : Fmap.read (ser sampleStale) = .ok (sampleMap, 0) := by rfl
+
+theorem sampleStale_wf : sampleStale.WF := by
+  constructor
+  · intro r hr
+    simp only [sampleStale, List.mem_cons, List.not_mem_nil, or_false] at hr
+    rcases hr with rfl | rfl | rfl
+    · exact ⟨by decide, by decide, by decide, by decide, by
+        intro a ha
+        simp only [List.mem_cons, List.not_mem_nil, or_false] at ha
+        subst ha; exact ⟨by decide, by decide, by decide⟩, by decide, fun h => absurd h (by decide),
+        fun h => absurd h (by decide)⟩
+    · exact ⟨by decide, by decide, by decide, by decide, by intro a ha; simp at ha, by decide,
+        fun h => absurd h (by decide), fun h => absurd h (by decide)⟩
+    · exact ⟨by decide, by decide, by decide, by decide, by intro a ha; simp at ha, by decide,
+        fun h => absurd h (by decide), fun h => absurd h (by decide)⟩
+  · exact ⟨sampleMap, 0, { offset := 98, size := 160, name := sampleName corebootName, flags := 0 },
+      sampleStale_read, by rfl, by rfl, by rfl⟩
+
+/-- `c19_update_wf_id` applies to it, and the repaired reader holds the stale bytes (record 1) -/
+example : ∃ i, newImageK (ser sampleStale) = .ok i ∧ update i = (ser sampleStale, none) :=
+  c19_update_wf_id sampleStale sampleStale_wf
+
+example : (newImageK (ser sampleStale)).map (fun i => (i.segs.map (·.file.fdata))[1]?) =
+    .ok (some [1, 2, 3, 4, 5, 6, 7, 8]) := by
+  have h := c19_keep_files_exact sampleStale sampleStale_wf
+  cases hi : newImageK (ser sampleStale) with
+  | error e => rw [hi] at h; cases h
+  | ok i =>
+    rw [hi] at h
+    simp only [Except.map, Except.ok.injEq] at h ⊢
+    have e : i.segs.map (·.file.fdata) = (i.segs.map (·.file)).map (·.fdata) := by rw [List.map_map]; rfl
+    rw [e, h]
+    rfl
+
+/-- W7 — an image that is NOT well formed in the sense of `Archive.WF`: empty space with stale content
+    AND an attribute block (both residual shapes of the former known finding). The repaired reader holds
+    the stored bytes and `Update` is the identity (`c19_update_unmodified_id`); the reader before the repair
+    zeroes the attribute block and writes 0xFF over the content. -/
+def w7 : Bytes := wImg (wRec [] 16 typeDeleted2 (beN 4 0x12345678 ++ beN 4 16 ++ d16.take 8) d16 ++ ff 8)
+
+set_option maxRecDepth 1000000 in
+theorem update_stale_attr_empty_witness :
+    (match newImageK w7 with
+     | .ok i => decide (i.segs.map (·.file.fdata) = [d16] ∧ update i = (w7, none))
+     | .error _ => false) = true ∧
+    (afterFix w7).map (fun r => (r.2, slice r.1 (98 + 40) 16, slice r.1 (98 + 56) 16)) =
+      some (none, List.replicate 16 0, ff 16) ∧
+    slice w7 (98 + 40) 32 = beN 4 0x12345678 ++ beN 4 16 ++ d16.take 8 ++ d16 := by decide
+
+
+/-- the hypotheses of C19.8 are met: an image of three records (`m`, `a`, `z`), `Remove("a")` as repaired
+    succeeds and leaves three records; the `Update` that follows returns no error -/
+def wR : Bytes := wImg (wRec [0x6d] 15 typeMaster [] d16 ++ ff 8 ++ wRec [0x61] 15 0x50 [] d16 ++ ff 8 ++
+  wRec [0x7a] 15 0x50 [] d16 ++ ff 8)
+
+set_option maxRecDepth 1000000 in
+theorem remove_example :
+    (match newImageK wR with
+     | .ok i =>
+       (match removeSegs true true i.segs [0x61] with
+        | .ok segs' => decide (wR.length < 2 ^ 32 ∧ segs'.length = 3 ∧ (update { i with segs := segs' }).2 = none ∧
+            (segs'.map (fun s => (s.file.recordStart, s.file.type))) = [(0, typeMaster), (64, typeDeleted2), (128, 0x50)])
+        | .error _ => false)
+     | .error _ => false) = true := by decide
+
+
+/-- C19.1d is not vacuous: `€` (U+20AC), `😀` (U+1F600) are scalar values with the encodings of RFC 3629;
+    an overlong form (C0 80), a surrogate (ED A0 80) and a truncated sequence are taken byte by byte -/
+example : Scalar 0x20AC ∧ Scalar 0x1F600 := ⟨by unfold Scalar; decide, by unfold Scalar; decide⟩
+
+example : encodeRune 0x20AC = [0xE2, 0x82, 0xAC] ∧
+    encodeRune 0x1F600 = [0xF0, 0x9F, 0x98, 0x80] ∧ encodeRune 0xFFFD = [0xEF, 0xBF, 0xBD] := by decide
+
+example : runeCount [0x61, 0xE2, 0x82, 0xAC, 0xF0, 0x9F, 0x98, 0x80] = 3 ∧ runeCount [0xC0, 0x80] = 2 ∧
+    runeCount [0xED, 0xA0, 0x80] = 3 ∧ runeCount [0xE2, 0x82] = 2 ∧
+    coerceUTF8 [0x61, 0xC0, 0x80] = [0x61, 0xEF, 0xBF, 0xBD, 0xEF, 0xBF, 0xBD] := by decide
 
 /-- the hypotheses of `c19_compression_anywhere` are met by a block of three attributes (a hash
     attribute, an LZ4 compression attribute, an unknown tag) followed by unused 0xFF space -/
